@@ -132,6 +132,7 @@ fn instantiate_alias_origin_operand(
         return None;
     }
 
+    let _alias_guard = context.enter_alias_operand(type_id)?;
     let origin = type_decl.get_alias_origin(context.db, Some(context.substitutor))?;
     Some(instantiate_type_generic_inner(context, &origin))
 }
